@@ -268,6 +268,7 @@ def run_crash(case: dict, trace: bool = False) -> dict:
     images = []
     state = {'cmd': -1}
     model = MailModel(1)
+    model.keyword_boxes = {'INBOX'}
     subscribed: set = set()
     ledger: dict = {}       # (mailbox, uid) -> token, every UID ever acked
     sent: dict = {}         # token -> bytes
